@@ -126,6 +126,24 @@ func (g *gen) instr(b *ssa.BasicBlock, idx int, ins ssa.Instruction) {
 		g.setVal(ins, Val{T: x.T, Sort: "Iface", Typ: ins.Type()})
 	case *ssa.ChangeType:
 		x := g.val(ins.X)
+		from, to := g.st.sortOf(ins.X.Type()), g.st.sortOf(ins.Type())
+		if from != to {
+			if fs, ok := g.st.structs[from]; ok {
+				if ts, ok2 := g.st.structs[to]; ok2 && len(fs.Fields) == len(ts.Fields) {
+					// conversion between structurally identical struct types: rebuild field by field
+					var parts []string
+					for i := range fs.Fields {
+						parts = append(parts, app(g.st.accessor(from, i), x.T))
+					}
+					t := "mk_" + to
+					if len(parts) > 0 {
+						t = "(mk_" + to + " " + strings.Join(parts, " ") + ")"
+					}
+					g.defineVal(ins, t)
+					return
+				}
+			}
+		}
 		x.Typ = ins.Type()
 		g.setVal(ins, x)
 	case *ssa.Convert:
